@@ -423,7 +423,7 @@ pub fn split_rhat_mean_ess(sample: ArrayView3<f32>) -> (Array1<f32>, Array1<f32>
 }
 
 fn rhat(within: ArrayView1<f32>, var: ArrayView1<f32>) -> Array1<f32> {
-    (within.to_owned() / var).sqrt()
+    (var.to_owned() / within).sqrt()
 }
 
 fn withinvar(sample: ArrayView3<f32>) -> (Array1<f32>, Array1<f32>) {
